@@ -341,7 +341,7 @@ fn gen_msg_c07(rng: &mut Rng, tier: Tier) -> msg::MsgScn {
             _ => {}
         }
     }
-    let plain = |b: Base, f: Fmt| Case { base: b, faults: vec![], wire: vec![], fmt: f, session: None, resolver: Resolver::Directory, kb_enc: KbEnc::Absent, extra: vec![], expand: None, hold_s: 0, escapes: false, extra_raw: None, member_order: None };
+    let plain = |b: Base, f: Fmt| Case { base: b, faults: vec![], wire: vec![], fmt: f, session: None, resolver: Resolver::Directory, kb_enc: KbEnc::Absent, extra: vec![], expand: None, hold_s: 0, escapes: false, extra_raw: None, member_order: None, mirror: None, general: None };
     let bases: Vec<Base> = (0..s.pres.len().min(3)).map(Base::Pres).chain(std::iter::once(Base::Cred(0))).collect();
     let key = s.issuers[0].key.clone();
     let alg = s.issuers[0].alg.clone().unwrap_or_else(|| "ES256".into());
@@ -375,6 +375,17 @@ fn gen_msg_c07(rng: &mut Rng, tier: Tier) -> msg::MsgScn {
             c.session = Some((Some("a".into()), Some("n".into())));
         }
         s.cases.push(c);
+    }
+    // validly signed tokens whose protected header is large (long kid / x5c / jku)
+    if !key.starts_with("hs") {
+        for bytes in [300usize, 2100, 5000, 70_000] {
+            let mut c = plain(rng.pick(&bases).clone(), rand_fmt(rng));
+            c.faults.push(Fault::AlgRewrite(crate::faults::AlgMode::ResignBigHeader { kid: crate::keys::base(&key).to_string(), bytes: bytes + rng.usize(64), param: rng.usize(3) as u8 }));
+            if rng.bool() {
+                c.session = Some((Some("a".into()), Some("n".into())));
+            }
+            s.cases.push(c);
+        }
     }
     // arbitrary text in the KB slot while the verifier expects key binding
     for kb in ["a.b", "a.b.c", "...", "e30.e30.e30", "e30.e30.", ".e30.", "eyJhbGciOiJFUzI1NiJ9.e30.AAAA", "eyJhbGciOiJFUzI1NiIsInR5cCI6ImtiK2p3dCJ9.eyJhdWQiOiJhIiwibm9uY2UiOiJuIn0.AAAA",
